@@ -16,9 +16,11 @@ CONSTANTS Keys,       \* keys usable in paths
 
 VARIABLES files,   \* the record: sequence of raw containers
           ref,     \* the reference tree
-          okm      \* did the last operation succeed/fail as on the reference?
+          okm,     \* did the last operation succeed/fail as on the reference?
+          fresh,   \* patch-aware bookkeeping (H5Tree): datasets created since the last boundary
+          touched  \*   ... and older datasets whose attributes were changed since
 
-vars == <<files, ref, okm>>
+vars == <<files, ref, okm, fresh, touched>>
 
 AllPaths == UNION {[1..n -> Keys] : n \in 1..MaxDepth}
 
@@ -30,6 +32,11 @@ Ops ==
              : p \in AllPaths \cup {<<>>}, k \in AttrKeys, v \in Vals}
     \cup {[op |-> "del_attr", p |-> p, key |-> k] : p \in AllPaths \cup {<<>>}, k \in AttrKeys}
 
+(* element writes and copy_into_patch (patch-aware by design: PatchAllows)    *)
+ElemOps ==
+    {[op |-> "set_elem", p |-> p, k |-> 0, b |-> b] : p \in AllPaths, b \in {0, 1}}
+    \cup {[op |-> "copy_into_patch", p |-> p] : p \in AllPaths}
+
 CopyOps ==
     {[op |-> "copy", p |-> p, q |-> q] : p \in AllPaths, q \in AllPaths}
     \cup {[op |-> "move", p |-> pq[1], q |-> pq[2]]
@@ -39,31 +46,49 @@ Init ==
     /\ files = <<EmptyContainer>>
     /\ ref = H5!EmptyTree
     /\ okm = TRUE
+    /\ fresh = {}
+    /\ touched = {}
 
+(* a patch-aware operation succeeds iff it would on the single tree AND the      *)
+(* bookkeeping allows it; every other operation iff it would on the single tree  *)
 Do(e) ==
-    LET w == Write(files, e) r == H5!Apply(ref, e) IN
+    LET w == Write(files, e) r == H5!Apply(ref, e)
+        expected == r.ok /\ H5!PatchAllows(e, fresh, touched) IN
     /\ files' = IF w.ok THEN w.f ELSE files
-    /\ ref' = r.t
-    /\ okm' = (w.ok = r.ok)
+    /\ ref' = IF expected THEN r.t ELSE ref
+    /\ okm' = (w.ok = expected)
+    /\ fresh' = H5!NextFresh(fresh, e, expected, ref, ref')
+    /\ touched' = H5!NextTouched(touched, fresh, e, expected, ref, Patching(files))
 
 UserOp     == \E e \in Ops : Do(e)
 UserCopyOp == \E e \in CopyOps : Do(e)
+UserElemOp == \E e \in ElemOps : Do(e)
 
 (* commit_patch + create_patch: a fresh, empty newest container             *)
 Boundary ==
     /\ files' = Append(files, EmptyContainer)
+    /\ fresh' = {}
+    /\ touched' = {}
     /\ UNCHANGED <<ref, okm>>
 
 Next     == UserOp \/ Boundary
 NextCopy == UserOp \/ UserCopyOp \/ Boundary
+NextElem == UserOp \/ UserElemOp \/ Boundary
+NextAll  == UserOp \/ UserCopyOp \/ UserElemOp \/ Boundary
 
 Spec     == Init /\ [][Next]_vars
 SpecCopy == Init /\ [][NextCopy]_vars
+SpecElem == Init /\ [][NextElem]_vars
+SpecAll  == Init /\ [][NextAll]_vars
 
 (* ---- properties ---- *)
 ViewOK      == View(files) = ref                       \* C01
 OutcomeOK   == okm                                     \* C01: same success/failure
 RefWellFormed == H5!WellFormed(ref)
+(* the bookkeeping of H5Tree describes the write path exactly *)
+FreshOK     == fresh = {p \in H5!DataPaths(ref) : CidxOf(files, p) = Len(files)}
+TouchedOK   == touched = {p \in H5!DataPaths(ref) :
+                             RawHas(LastC(files), p) /\ RawAt(LastC(files), p).k = "g"}
 OldFrozen   == [][\A i \in 1..Len(files) - 1 : i \in DOMAIN files' /\ files'[i] = files[i]]_vars  \* C02
 MergeOK     == View(Merged(files)) = View(files)       \* C05
 SkeletonOK  == Skeleton(View(StubOf(files))) = Skeleton(View(files))   \* C10
